@@ -784,10 +784,9 @@ class CompartmentalSystem(Statement):
             return True
         if not isinstance(other, CompartmentalSystem):
             return NotImplemented
-        return (
-            self._t == other._t
-            and nx.to_dict_of_dicts(self._g) == nx.to_dict_of_dicts(other._g)
-            and self.dosing_compartments == other.dosing_compartments
+        # NOTE: The compartments (including their doses) are the keys of the dicts
+        return self._t == other._t and nx.to_dict_of_dicts(self._g) == nx.to_dict_of_dicts(
+            other._g
         )
 
     def __hash__(self):
